@@ -488,3 +488,66 @@ def random_tokens(fmt, rng):
         voc = KEYWORDS["fasta"] + ["ACGT", "\n", "\n", ">b\n", ">a\n"]
         return "".join(rng.choice(voc) for _ in range(n))
     raise ValueError(fmt)
+
+
+# ------------------------------------------------------------------------------------------------
+# spin locator: names the function whose loop does not terminate.  Used only AFTER vf.mon.budget has given the
+# verdict, on a second run of the same read.  In the steady state of an endless loop the callers of the spinning
+# function are blocked in a call and execute no jump at all, the spinning function and its callees do; so the
+# spinning function is the shallowest frame on the stack whose code object jumped during the last half of the run.
+import os
+import sys
+
+_LOC_TOOL = 5
+
+
+class _LocatorStop(BaseException):
+    pass
+
+
+class SpinLocator(object):
+    def __init__(self, repo_src):
+        self.prefix = os.path.abspath(repo_src) + os.sep
+        self.known = {}
+        self.registered = False
+        self.total = 0
+        self.limit = 0
+        self.counts = {}
+
+    def _cb(self, code, src, dst):
+        k = self.known.get(code)
+        if k is None:
+            k = self.known[code] = code.co_filename.startswith(self.prefix)
+        if not k:
+            return sys.monitoring.DISABLE
+        self.total += 1
+        if self.total * 2 > self.limit:
+            self.counts[code] = self.counts.get(code, 0) + 1
+            if self.total > self.limit:
+                raise _LocatorStop()
+
+    def locate(self, fn, limit):
+        """run fn() for ``limit`` jumps; returns the qualname of the spinning function or None."""
+        m = sys.monitoring
+        if not self.registered:
+            m.use_tool_id(_LOC_TOOL, "vf-c20-spin")
+            m.register_callback(_LOC_TOOL, m.events.JUMP, self._cb)
+            self.registered = True
+        self.total, self.limit, self.counts = 0, limit, {}
+        m.set_events(_LOC_TOOL, m.events.JUMP)
+        try:
+            try:
+                fn()
+            finally:
+                m.set_events(_LOC_TOOL, 0)
+        except _LocatorStop as e:
+            tb = e.__traceback__
+            while tb is not None:
+                code = tb.tb_frame.f_code
+                if code.co_filename.startswith(self.prefix) and self.counts.get(code, 0) >= 2:
+                    return getattr(code, "co_qualname", code.co_name)
+                tb = tb.tb_next
+            return None
+        except Exception:
+            return None
+        return None
